@@ -102,3 +102,39 @@ func cmdAsserts(args []string) int {
 	}
 	return 0
 }
+
+func cmdRetLen(args []string) int {
+	p, err := Load("/repo", BuildConfig{}, nil)
+	if err != nil {
+		fmt.Fprintln(os.Stderr, err)
+		return 2
+	}
+	fs := p.Func(args[0], "", args[1])
+	sf := p.SSAFunc(fs.Obj)
+	ia := p.Intervals()
+	fi := ia.Analyze(sf)
+	for _, b := range sf.Blocks {
+		for _, ins := range b.Instrs {
+			if v, ok := ins.(interface {
+				Name() string
+				String() string
+			}); ok {
+				if val, isVal := ins.(interface{ Type() types.Type }); isVal {
+					_ = val
+				}
+				_ = v
+			}
+			fmt.Printf("%d: %s", b.Index, ins.String())
+			if v, ok := ins.(ssaValue); ok {
+				if _, isInt := typeRange(v.Type(), ia.sizes); isInt {
+					fmt.Printf("   => %s", fi.At(v, b))
+				} else if _, isSl := v.Type().Underlying().(*types.Slice); isSl {
+					fmt.Printf("   => len %s", fi.lenItv(v, b))
+				}
+			}
+			fmt.Println()
+		}
+	}
+	fmt.Println("retlen", ia.retLenItv(sf, 0))
+	return 0
+}
